@@ -51,22 +51,19 @@ SPEC = {
                 "modelled: JSON text layer (C20), decoding, the discovery step inside the execute plugin (same function as commit's), goroutines (none are started in "
                 'Outcome/Reports). Translated from source per run: plugincommon.GetTransmissionSchedule (C16_gen.v; ChainSupport.SupportsDestChain is an oracle)',
     'level_text': 'Proof: 32 closed Coq theorems. 24 property theorems. Whole outcome, for all inputs and all runtimes (DeterminismSys): C10_commit_outcome_deterministic '
-                  '- the merkle-root outcome, token prices, gas prices and discovery address maps are equal for every iteration order of every Go map in the '
-                  'observations, in the configuration and of every internally built map, with no hypothesis on the observations (_canon_deterministic, '
-                  'C10_commit_reorder_exists); C10_exec_outcome_deterministic - the three execute states incl. the five merges, report builder and outcome sort, under '
-                  're-ordering at both map levels, of every minObservation cache and of the merged observation; hypothesis: ids faithful (sha3 collision free), shown '
-                  'necessary (C10_exec_msg_id_collision_refuted, _nonce_id_collision_refuted); no unique-sort-key hypothesis (stable sorts keep ties in id order: '
-                  'C10_exec_dupkey_refuted for the pre-F17 GetValid). C10_commit_reports_deterministic, C10_exec_reports_deterministic, C10_schedule_role_map_only: '
-                  'reports and schedule depend on the outcome and the role map only; the own oracle id is not an argument of any outcome function. '
-                  'C10_commit_parts_are_the_judged_models: the composed parts are the models the C01 / C04 / C14 / C07 / C08 sinks judge against the code. Seams: '
-                  'consensus maps independent of map and vote order, sorted output canonical, GetValid order (F17 refuted), schedule, time-zone independent identity of '
-                  'time.Time (F25 refuted). Judge soundness (8 C10_judge_*): the constant "exactly one distinct result" the judge demands is the count the theorems give '
-                  'for every family of runs; borrowed schedule sink proved as in C16. Correspondence, every run: commit and execute Plugin.Outcome + Reports evaluated 16 '
-                  'times per input - 15 on fresh instances, once on VETERAN instances that live across cases (restart equivalence) - with different own oracle ids and '
-                  'process time zones: exactly one (outcome bytes, report bytes, schedule) result allowed; four long-lived execute oracles over the REAL home-chain '
-                  'poller with the role map re-drawn between rounds must attach one schedule (C16_rep_exec_roles). Translation tie (4 theorems, C16_gen.v): '
-                  'GetTransmissionSchedule. Partial: on the implementation map-order effects are SAMPLED by repetition (the theorems carry the unbounded claim on the '
-                  'model); the distinct count is computed by the harness from encoded bytes.',
+                  '- merkle-root outcome, token prices, gas prices and discovery address maps are equal for every iteration order of every Go map in the observations, in '
+                  'the configuration and of every internally built map, with no hypothesis on the observations; C10_exec_outcome_deterministic - the three execute states '
+                  'incl. the five merges, report builder and outcome sort, under re-ordering at both map levels, of every minObservation cache and of the merged '
+                  'observation; hypothesis: ids faithful (sha3 collision free), shown necessary (C10_exec_*_id_collision_refuted); no unique-sort-key hypothesis '
+                  '(C10_exec_dupkey_refuted for the pre-F17 GetValid). C10_*_reports_deterministic, C10_schedule_role_map_only: reports and schedule depend on the '
+                  'outcome and the role map only. C10_commit_parts_are_the_judged_models: the composed parts are the models the C01 / C04 / C14 / C07 / C08 sinks judge '
+                  'against the code. Seams: GetValid order (F17 refuted), time-zone independent identity of time.Time (F25 refuted). Judge soundness (8 C10_judge_*): the '
+                  'constant "exactly one distinct result" the judge demands is the count the theorems give for every family of runs. Correspondence, every run: commit '
+                  'and execute Plugin.Outcome + Reports evaluated 16 times per input - 15 on fresh instances, once on VETERAN instances that live across cases (restart '
+                  'equivalence) - with different own oracle ids and process time zones: exactly one (outcome bytes, report bytes, schedule) result allowed; four '
+                  'long-lived execute oracles over the REAL home-chain poller with the role map re-drawn between rounds must attach one schedule (C16_rep_exec_roles). '
+                  'Translation tie (4 theorems, C16_gen.v): GetTransmissionSchedule. Partial: on the implementation map-order effects are SAMPLED by repetition (the '
+                  'theorems carry the unbounded claim on the model); the distinct count is computed by the harness.',
     'level_note': 'Trusted: Coq kernel, hand-written model and theorem statements, differential (repetition) harness, leaf translator. Specific: libocr delivers the same '
                   'previous outcome, query and ordered observation list to every oracle; Go sort.SliceStable / sort.Slice are deterministic functions of their input; '
                   'randomised map iteration is sampled by 16 evaluations per case, not controlled; sha3 ids taken as collision free (hypothesis of the execute theorem); '
